@@ -118,9 +118,16 @@ class WrappedInstance:
     This is needed to clean it up from the cache after the instance reference died.
     """
 
+    instance_id: Optional[int] = field(init=False, default=None, repr=False)
+    """
+    The id of the instance.
+    This is needed to clean it up from the instance index after the instance reference died.
+    """
+
     def __post_init__(self, instance: Symbol):
         self.instance_reference = weakref.ref(instance)
         self.instance_type = type(instance)
+        self.instance_id = id(instance)
 
     @property
     def instance(self) -> Optional[Symbol]:
@@ -237,11 +244,19 @@ class SymbolGraph(metaclass=SingletonMeta):
 
         :param wrapped_instance: The instance to remove.
         """
-        self._instance_index.pop(id(wrapped_instance.instance), None)
+        # the instance may be dead already (its id may even be reused by a new instance), so use the stored id
+        # and only drop the entry if it still belongs to this wrapper.
+        if self._instance_index.get(wrapped_instance.instance_id) is wrapped_instance:
+            del self._instance_index[wrapped_instance.instance_id]
         self._class_to_wrapped_instances[wrapped_instance.instance_type].remove(
             wrapped_instance
         )
         self._instance_graph.remove_node(wrapped_instance.index)
+        # node indices are recycled by the graph, so relations of the removed node must not stay in the index.
+        for index_pairs in self._relation_index.values():
+            index_pairs.difference_update(
+                [pair for pair in index_pairs if wrapped_instance.index in pair]
+            )
         if _verif.ENABLED:
             _verif.emit(
                 "remove_node",
